@@ -3,7 +3,10 @@
 // cost stays within the bound. Choice 0 is always the default (honest / no fault) answer.
 package explore
 
-import "fmt"
+import (
+	"fmt"
+	"sync"
+)
 
 // Ctx is handed to the body on every execution.
 type Ctx struct {
@@ -94,4 +97,82 @@ func Replay(choices []int, body func(c *Ctx)) *Ctx {
 	c := &Ctx{prefix: choices}
 	body(c)
 	return c
+}
+
+// ExploreParallel is Explore with the subtrees below the first deviating choice distributed over workers.
+// body and visit must be safe for concurrent use (each execution gets its own Ctx).
+func ExploreParallel(bound, workers int, body func(c *Ctx), visit func(c *Ctx)) Stats {
+	var st Stats
+	var mu sync.Mutex
+	root := &Ctx{}
+	body(root)
+	st.Executions, st.MaxDepth = 1, len(root.Choices)
+	if root.diverge != "" {
+		st.Diverged = append(st.Diverged, root.diverge)
+		return st
+	}
+	if visit != nil {
+		visit(root)
+	}
+	var prefixes [][]int
+	if bound >= 1 {
+		for i := 0; i < len(root.Choices); i++ {
+			if root.costs[i] > bound {
+				continue
+			}
+			for alt := 1; alt < root.sizes[i]; alt++ {
+				prefixes = append(prefixes, append(append([]int{}, root.Choices[:i]...), alt))
+			}
+		}
+	}
+	jobs := make(chan []int, len(prefixes))
+	for _, p := range prefixes {
+		jobs <- p
+	}
+	close(jobs)
+	var wg sync.WaitGroup
+	for w := 0; w < workers; w++ {
+		wg.Add(1)
+		go func() {
+			defer wg.Done()
+			for p := range jobs {
+				var rec func(prefix []int)
+				rec = func(prefix []int) {
+					c := &Ctx{prefix: prefix}
+					body(c)
+					mu.Lock()
+					st.Executions++
+					if len(c.Choices) > st.MaxDepth {
+						st.MaxDepth = len(c.Choices)
+					}
+					if c.diverge != "" {
+						st.Diverged = append(st.Diverged, c.diverge)
+						mu.Unlock()
+						return
+					}
+					mu.Unlock()
+					if visit != nil {
+						visit(c)
+					}
+					used := 0
+					for i := 0; i < len(c.Choices); i++ {
+						if i >= len(prefix) {
+							for alt := 1; alt < c.sizes[i]; alt++ {
+								if used+c.costs[i] > bound {
+									break
+								}
+								rec(append(append([]int{}, c.Choices[:i]...), alt))
+							}
+						}
+						if c.Choices[i] != 0 {
+							used += c.costs[i]
+						}
+					}
+				}
+				rec(p)
+			}
+		}()
+	}
+	wg.Wait()
+	return st
 }
